@@ -86,14 +86,14 @@ def model_check(ctx):
     simdir = os.path.dirname(ctx.path('sim', 'x'))
     gsimdir = os.path.dirname(ctx.path('gsim', 'x'))
     jobs = [
-        ('gen', 'JsonGen', 'JsonGen_%s.cfg' % t, dict(workers=w, heap='6g', dump=gdump, timeout=1500)),
+        ('gen', 'JsonGen', 'JsonGen_%s.cfg' % t, dict(workers=w, heap='3g', dump=gdump, timeout=1500)),
         ('doc', 'JsonDocMC', 'JsonDocMC_%s.cfg' % t, dict(workers=max(2, w // 2), timeout=1500)),
         ('sep', 'JsonSep', 'JsonSep_%s.cfg' % t, dict(workers=2, timeout=900, extra=['-coverage', '1'])),
         ('sepany', 'JsonSep', 'JsonSep_anyquick.cfg' if q else 'JsonSep_any.cfg', dict(workers=2, timeout=900, extra=['-coverage', '1'])),
-        ('fix', 'JsonNumFix', 'JsonNumFix_%s.cfg' % t, dict(workers=w, heap='4g', dump=ndump, timeout=1500)),
+        ('fix', 'JsonNumFix', 'JsonNumFix_%s.cfg' % t, dict(workers=w, heap='3g', dump=ndump, timeout=1500)),
         ('gsim', 'JsonGen', 'JsonGen_sim.cfg', dict(workers=1, simulate='file=%s/b,num=%d' % (gsimdir, 150 if q else 1500),
                                                     depth=150, seed=ctx.seed, timeout=600)),
-        ('sim', 'NumGen', 'NumGen_sim.cfg', dict(workers=1, simulate='file=%s/b,num=%d' % (simdir, 150 if q else 3000),
+        ('sim', 'NumGen', 'NumGen_sim.cfg', dict(workers=1, simulate='file=%s/b,num=%d' % (simdir, 150 if q else 1500),
                                                  depth=40, seed=ctx.seed, timeout=600)),
     ]
     res = _mc_parallel(ctx, jobs)
@@ -367,10 +367,13 @@ def gen_cases(ctx, exe, lex, gdump, ndump, simdir, gsimdir, B):
         n2 = allnum[(i * 7 + 3 + ctx.seed) % len(allnum)]
         k = i + ctx.seed
         g.add(contexts(n, n2, k), False, 'num')
-        if n in borderset or i % 8 == ctx.seed % 8 or (not q and not longest):
+        # more contexts / number keeping / upper-case E: always for the border lexemes, in thorough also for the
+        # exhaustively enumerated ones below the top length, else for a rotating eighth (quick) or quarter (thorough)
+        more = n in borderset or (not q and i < len(exh) and not longest) or i % (8 if q else 4) == ctx.seed % 4
+        if more:
             g.add(contexts(n, n2, k + 5), False, 'num')
             g.add(contexts(n, n2, k + 1), True, 'num')
-        if b'e' in n and (i % 16 == 0 or (not q and not longest)):
+        if b'e' in n and (i % 16 == 0 or (not q and more)):
             g.add(contexts(n.replace(b'e', b'E'), n2, k + 2), False, 'num')
         if len(g.cases) >= B:
             yield g.take()
@@ -516,7 +519,7 @@ def tlc_docs(ctx, docs):
                     f.write(l + '\n')
                     owner.append(di)
         try:
-            r = vlib.tlc(ctx, 'C07Trace', 'C07Trace.cfg', workers=1, heap='4g', timeout=1800, env={'TRACE': p})
+            r = vlib.tlc(ctx, 'C07Trace', 'C07Trace.cfg', workers=1, heap='3g', timeout=1800, env={'TRACE': p})
         except vlib.Infra as e:
             errs.append(str(e))
             return
@@ -585,7 +588,7 @@ def judge(ctx, cases, lines, st=None):
     multi = [(i, groups[i]) for i in order if len(groups[i]) > 1]
     rejected = {}
     if single:
-        _, rej = vlib.tlc_trace(ctx, 'C07Trace', 'C07Trace.cfg', [groups[i][0] for i in single], min_per_shard=1500)
+        _, rej = vlib.tlc_trace(ctx, 'C07Trace', 'C07Trace.cfg', [groups[i][0] for i in single], min_per_shard=1500, heap='1g')
         for k, why in rej:
             rejected.setdefault(single[k], []).append(why)
     tick(ctx, 'single-line texts validated (%d)' % len(single))
@@ -710,8 +713,8 @@ def run(ctx):
         if rejected:
             reproduced += confirm(ctx, exe, batch, rejected)
     if st.drift:
-        vlib.log('DRIFT: %d texts where the code deviates from the design model JsonSep (error/no error, tokens '
-                 'written, whitespace in the output), e.g. %r - information, not a verdict' % (st.drift, st.drift_sample))
+        vlib.log('DRIFT: %d texts where the code deviates from the design models JsonSep/JsonNumFix (error/no error, tokens '
+                 'written, whitespace in the output, Repair(Number(lexeme))), e.g. %r - information, not a verdict' % (st.drift, st.drift_sample))
     srcs = ('generated texts (JsonGen dump, %s grammar tokens, whitespace variants), number lexemes (NumGen dump jsonified, '
             'simulate walks to length 40, int32/int64 exponent borders, a grid digits x dot position x exponent x sign) in 12 contexts and packed arrays, json_test.go inputs, '
             'tests/json/corpus and _benchmarks/*.json whole and cut into sub-values' % ('<=6' if ctx.quick() else '<=7'))
